@@ -794,6 +794,9 @@ def check(model, rep, tier):
               'every call of the user goes through the call wrapper, at any depth')
   rep.depends('C14', ['BI-TABLE', 'BI-SIG', 'BI-FORWARD', 'BI-FRAME'],
               'calls of builtins are served by the substitutes')
+  rep.depends('C17', ['TREE-NONEMPTY'],
+              'a generated module with an empty block does not compile: the '
+              'function does not convert at all')
 
 
 def _namedtuple_fields(cls):
